@@ -59,6 +59,7 @@ def view(s):
 
 def _mk(st):
     from spacepackets.ccsds.time import CdsShortTimestamp
+    CdsShortTimestamp.now()             # an application stamps its own packets all the time: "now" must not colour other stamps
     return CdsShortTimestamp(st["days"], st["ms"])
 
 
@@ -126,6 +127,10 @@ def op_cds_add(a):
             s = CdsShortTimestamp.from_datetime(EPOCH58 + datetime.timedelta(days=a["st"]["days"], milliseconds=a["st"]["ms"]))
         else:
             s = _mk(a["st"])
+        if (td["us"] + td["secs"]) % 2:
+            # an earlier addition of less than a millisecond on the same object (adds nothing: stamps hold whole
+            # milliseconds, every addition is judged on its own)
+            s + datetime.timedelta(microseconds=1 + (td["us"] * 7 + td["secs"]) % 999)
         r = s + datetime.timedelta(days=td["days"], seconds=td["secs"], microseconds=td["us"])
         return {"view": view(r)}
     return outcome(run)
